@@ -10,7 +10,7 @@ C17 model: the chunk-list mechanism of weed/filer as the Go code implements it (
   readLoopF/readAtF    = the same with a fetch oracle (readOneWholeChunk/doFetchFullChunkData may fail ⇒ ReadAt returns the error)
   compact              = CompactFileChunks
   manifestize          = doMaybeManifestize + mergeIntoManifest
-  streamContent        = StreamContent                     (stream.go: concatenates the views, no zero fill)
+  streamLoop/streamContent = StreamContent                 (stream.go, after its `fix:` zero-fill commit: gaps and the tail of a bounded window are zeros)
 
 Offsets and sizes are `Nat` (the code uses int64/uint64; assumption: offsets are non-negative
 and every offset+size stays below 2^63).  A chunk's `fid` stands for its file id string, `key`
@@ -227,8 +227,19 @@ def manifestize (k base : Nat) (ns : List Node) : List Node :=
   let ds := ns.filterMap nodeChunk
   ns.filter isManifest ++ batchLoop k ds.length base ds
 
-/-- StreamContent: the bytes of the views, one after the other -/
+/-- the write loop of StreamContent after `fix:` (zero fill): before a view the gap `offset < LogicOffset` is written as
+    zeros, then the view's bytes; after the last view the rest of a bounded window (`offset < stop`) is zeros -/
+def streamLoop (data : Nat → Nat → Nat) (stop : Nat) : List View → Nat → List Nat
+  | [], pos => List.replicate (stop - pos) 0
+  | v :: vs, pos =>
+    List.replicate (v.logic - pos) 0 ++ (List.range' v.off v.size).map (data v.fid) ++
+      streamLoop data stop vs (max pos v.logic + v.size)
+
+/-- the window end StreamContent fills up to: none (0 here, -1 in the code) for size = MaxInt64 = "to the end of the last chunk" -/
+def streamStop (offset size : Nat) : Nat := if size = maxInt64 then 0 else offset + size
+
+/-- StreamContent(offset, size): the bytes written -/
 def streamContent (data : Nat → Nat → Nat) (ns : List Node) (offset size : Nat) : List Nat :=
-  (viewFromChunks ns offset size).flatMap fun v => (List.range' v.off v.size).map (data v.fid)
+  streamLoop data (streamStop offset size) (viewFromChunks ns offset size) offset
 
 end SwV.Model.C17
